@@ -197,17 +197,22 @@ class SqueethAdapter:
                             room_d = Decimal(room.numerator) / Decimal(room.denominator) if room > 0 else Decimal(0)
                             mint = {"half": room_d / 2, "near": room_d * (1 - Decimal("1e-4")), "beyond": room_d * (1 + Decimal("1e-4")) + Decimal("1e-9"),
                                     "0": Decimal(0), "huge": Decimal(10) ** 9}[mcls]
+                            if mcls in ("beyond", "huge") or ecls == "over":  # arguments by name (as the docs' examples give them) where a refusal is expected
+                                return m.open_deposit_mint(deposit_eth_amount=eth, osqth_mint_amount=mint, vault_key=vk, uni_position=pos)
                             return m.open_deposit_mint(eth, mint, vk, pos)
                         out.append(Op(f"{n}.open_deposit_mint[{tname},{ecls},{mcls},{pname}]", odm, not default,
                                       f"{n}.open_deposit_mint", {"revalues": pname == "lp"}))
         for i, vk in enumerate(vaults):
             for cls in ("part", "over", "0"):
-                out.append(Op(f"{n}.deposit[v{i},{cls}]", lambda c, vk=vk, cls=cls: m.deposit(vk, amount(cls, weth_bal())),
+                out.append(Op(f"{n}.deposit[v{i},{cls}]", lambda c, vk=vk, cls=cls: (m.deposit(vk, amount(cls, weth_bal())) if cls == "part" else
+                                                                                   m.deposit(vault_key=vk, eth_value=amount(cls, weth_bal()))),
                               cls != "part", f"{n}.deposit"))
             for bcls, wcls in (("part", "0"), ("0", "dust"), ("all", "all"), ("0", "part"), ("over", "over"), ("part", "part"), ("0", "all"),
                                ("all", "0")):
                 def baw(c, vk=vk, bcls=bcls, wcls=wcls):
                     v = m.vault[vk]
+                    if (bcls, wcls) in (("over", "over"), ("0", "all"), ("0", "part"), ("0", "dust")):  # by name
+                        return m.burn_and_withdraw(vault_key=vk, osqth_burn_amount=amount(bcls, v.osqth_short_amount), withdraw_eth_amount=amount(wcls, v.collateral_amount))
                     return m.burn_and_withdraw(vk, amount(bcls, v.osqth_short_amount), amount(wcls, v.collateral_amount))
                 out.append(Op(f"{n}.burn_and_withdraw[v{i},{bcls},{wcls}]", baw, (bcls, wcls) != ("part", "0"), f"{n}.burn_and_withdraw"))
             for p in free_pos:
